@@ -447,6 +447,26 @@ def main():
                                        "rust": r, "model": m})
             stream_stats[name] = {"cases": len(cases), "problems": nd}
 
+    # ---- search for a failing input: a model/code disagreement is not by itself a violation of
+    # the property, so the property's oracle (Lean, specification side) is applied to the
+    # implementation's own outcome on each disagreeing case ----
+    JUDGED = {"ser", "de", "rt", "graph", "schema", "c11"}
+    todo = []
+    for v in violations:
+        cmd = v["case"].split(" ", 1)[0]
+        if v["kind"] == "disagreement" and cmd in JUDGED and not v["rust"].startswith(("panic", "abort")):
+            rtoks = v["rust"].split()
+            rest = v["case"].split(" ", 1)[1] if " " in v["case"] else ""
+            todo.append((v, f"judge-{cmd} {len(rtoks)} {' '.join(rtoks)} {rest}"))
+    if todo and os.path.exists(DRIVER):
+        outs = run_driver([l for _, l in todo])
+        for (v, _), o in zip(todo, outs):
+            _, verdict = split_out(o)
+            v["judged"] = o[:300]
+            if verdict.startswith("VIOLATION"):
+                v["kind"] = "oracle"
+                v["detail"] = "the property's oracle on the implementation's outcome: " + verdict[:300] + " | " + v["detail"]
+
     # ---- verdict ----
     for kid, h in known_hits.items():
         print(f"KNOWN-FINDING: property={prop} {kid}: {h['finding']['what']} (seen {h['count']}x)")
@@ -457,7 +477,7 @@ def main():
         replay_path = os.path.join(ROOT, "replays", f"{prop}_{tier}_{seed}.json")
         concrete = [v for v in violations if v["kind"] in ("oracle", "disagreement", "protocol")]
         # a concrete failing input of the *property* is an oracle violation or an abort/panic
-        failing = [v for v in violations if v["kind"] == "oracle" or v["rust"] in ("abort", "panic")]
+        failing = [v for v in violations if v["kind"] == "oracle" or v["rust"].startswith(("abort", "panic"))]
         with open(replay_path, "w") as f:
             json.dump({"property": prop, "tier": tier, "seed": seed,
                        "unchecked": unchecked,
